@@ -71,7 +71,7 @@ Act(e) ==
     [] e.a = "RestoreCwd"  -> RestoreCwd(p)
     [] e.a = "Release"     -> Release(p)
     [] e.a = "PostRun"     -> PostRun(p)
-    [] e.a = "Return"      -> Return(p)
+    [] e.a = "Return"      -> Return(p) /\ (ret'[p] = "ok") = e.ok
     [] e.a = "RaiseOut"    -> RaiseOut(p)
     [] e.a = "Crash"       -> Crash(p) \/ CrashEmpty(p)
     [] e.a = "Inject"      -> InjectAt(p)
